@@ -10,6 +10,9 @@ static FILE_SEQ: AtomicU64 = AtomicU64::new(0);
 
 pub fn scratch_dir() -> std::path::PathBuf {
     let d = std::path::PathBuf::from(concat!(env!("CARGO_MANIFEST_DIR"), "/../work/scratch")).join(format!("p{}", std::process::id()));
+    // process ids are reused: whatever an earlier process with this id left behind is removed on first use
+    static CLEANED: std::sync::Once = std::sync::Once::new();
+    CLEANED.call_once(|| { let _ = std::fs::remove_dir_all(&d); });
     std::fs::create_dir_all(&d).unwrap();
     d
 }
